@@ -9,6 +9,7 @@ suggestion / decision — that checker is what yields `property` violations."""
 import contextlib
 import datetime
 import glob
+import random
 import io
 import json
 import os
@@ -212,7 +213,13 @@ class OneHot:
 # ------------------------------------------------------------------------------------------------
 # case generation (open loop: ops are interpreted against whatever the scheduler answers)
 # ------------------------------------------------------------------------------------------------
+ZERO_VALUES = [-1.0, -0.5, 0.0, 0.0, -0.0, 0, 0.3, 0.8]
+
+
 def gen_metric(rng, style):
+    if style == "zeros":
+        # exact zeros (0.0, -0.0, int 0: all falsy) with negative and positive neighbours
+        return rng.choice(ZERO_VALUES)
     if style == "tiny":
         # tiny magnitudes (uniformly scaled grid): absolute tolerances must not decide
         return rng.randint(1, 9) * 1e-9
@@ -226,7 +233,7 @@ def gen_metric(rng, style):
     return rng.uniform(0.5, 2.0)
 
 
-def gen_spec(rng, force_type=None):
+def gen_spec(rng, force_type=None, wellformed=False):
     typ = force_type or rng.choice(TYPES)
     setup = rng.choice(["g1rf3", "g1rf3", "g1rf2", "g2rf2", "levels", "g1rf4"])
     spec = dict(type=typ, mode=rng.choice(["min", "max"]), rung_levels=None, grace=1, rf=3)
@@ -261,12 +268,12 @@ def gen_spec(rng, force_type=None):
     spec["tiny_space"] = rng.random() < 0.08
     spec["searcher_data"] = rng.choice(["rungs", "rungs", "rungs", "all", "rungs_and_last"])
     spec["myopic"] = rng.random() < 0.5
-    style = rng.choice(["grid", "grid", "grid64", "float", "tiny", "neartie"])
+    style = rng.choice(["grid", "grid", "grid64", "float", "tiny", "neartie", "zeros"])
     spec["style"] = style
-    malformed = rng.random() < 0.15
+    malformed = rng.random() < 0.15 and not wellformed
     ops = []
     nb = spec["brackets"]
-    for _ in range(rng.randint(30, 170)):
+    for _ in range(rng.randint(30, 90) if wellformed else rng.randint(30, 170)):
         u = rng.random()
         cost = rng.randint(1, 16) / 4.0
         if u < 0.30:
@@ -581,6 +588,36 @@ def exc_class(e):
 
 
 def run_spec(spec, strict=False, max_trials=None):
+    """runs one scheduler through its op list (see run_spec_gen)"""
+    g = run_spec_gen(spec, strict=strict, max_trials=max_trials)
+    try:
+        while True:
+            next(g)
+    except StopIteration as stop:
+        return stop.value
+
+
+def run_twin(tw):
+    """two independent schedulers alive in the same process, their op lists interleaved (which one advances
+    next is drawn from the twin's own seed); each is checked against its own model / reference"""
+    gens = [run_spec_gen(sp) for sp in tw["twin"]]
+    results = [None, None]
+    live = [0, 1]
+    order = random.Random(tw.get("schedule_seed", 0))
+    first = True
+    while live:
+        pick = list(live) if first else [order.choice(live)]   # both schedulers are constructed before any op
+        first = False
+        for i in pick:
+            try:
+                next(gens[i])
+            except StopIteration as stop:
+                results[i] = stop.value
+                live.remove(i)
+    return results
+
+
+def run_spec_gen(spec, strict=False, max_trials=None):
     """returns dict(term=Coq case, events=[...] (JSON), checker=Checker, stats=dict).
     strict: return the string "invalid" as soon as an op does not apply (used by the exhaustive stream)."""
     from syne_tune.optimizer.schedulers import hyperband as hb
@@ -641,6 +678,7 @@ def run_spec(spec, strict=False, max_trials=None):
             sch = hb.HyperbandScheduler(cs, **kwargs)
         except AssertionError:
             return None  # e.g. PASHA with an empty rung system: not constructible
+    yield  # constructed
     # reference rung levels, promotion quantiles and number of brackets from the documented rules
     # (levels grace * rf^k < max_t or the given list, a final max_t stripped; q_j = r_j / r_{j+1}; at most
     # one bracket per rung level plus one) -- not read off the scheduler
@@ -707,6 +745,13 @@ def run_spec(spec, strict=False, max_trials=None):
     def busy_ids():
         return {sl["tid"] for sl in slots if sl is not None}
 
+    def raised(call, err):
+        """an exception of a scheduler call on a protocol-following event sequence is a violation"""
+        if stats["malformed"] == 0:
+            chk.bad("scheduler_raised", "%s raised %s(%s) on a legal event sequence" % (call, type(err).__name__, str(err)[:120]),
+                    signature=dict(scheduler="HyperbandScheduler", type=spec["type"], check="scheduler_raised",
+                                   exception=type(err).__name__))
+
     def do_report(tid, resource, metric, cost, slot_idx):
         """returns decision or None after an exception"""
         result = {"epoch": resource, "m": metric}
@@ -751,6 +796,7 @@ def run_spec(spec, strict=False, max_trials=None):
                                            brackets_ge_2=bool(nb >= 2), num_rung_levels=len(levels)))
                 return None
             stats["errors"] += 1
+            raised("on_trial_result(trial %s, resource %s)" % (tid, resource), err)
             record(ev, "(ObsErr %s)" % natlit(exc_class(err)), dict(js, error=type(err).__name__))
             return None
         last_result[tid] = result
@@ -770,6 +816,7 @@ def run_spec(spec, strict=False, max_trials=None):
     for op in spec["ops"]:
         if not alive:
             break
+        yield  # another scheduler of the same process may run its next op here
         kind = op[0]
         if kind == "S":
             free = [i for i, sl in enumerate(slots) if sl is None]
@@ -790,6 +837,7 @@ def run_spec(spec, strict=False, max_trials=None):
                 sug, err = None, e
             if err is not None:
                 stats["errors"] += 1
+                raised("suggest(%s)" % next_id, err)
                 record("Suggest %s %s [] true" % (zlit(next_id), natlit(br)), "(ObsErr %s)" % natlit(exc_class(err)),
                        dict(op="suggest", new_id=next_id, bracket=br, error=type(err).__name__))
                 alive = False
@@ -991,7 +1039,10 @@ def run(ctx, replay=None):
                 "unknown trials, removal of running trials, repeated levels) against HyperbandScheduler types promotion / "
                 "pasha / cost_promotion / rush_promotion, searcher=random, min/max, brackets 1..3 shared or per-bracket "
                 "rung systems, with/without max_resource_attr, cost_attr and script-side checkpointing, 1..4 workers, "
-                "metrics on integer grids (ties), dyadic grids and floats; non-trivial = at least one resume from a rung "
+                "metrics on integer grids (ties), dyadic grids, floats, tiny magnitudes, near ties and tables with exact zeros; the maximum "
+                "resource reaches the constructor explicitly or through config-space constants (with distractors); plus interleaved "
+                "twin experiments (two schedulers alive in one process, overlapping trial ids); any exception of a scheduler call "
+                "on a protocol-following sequence is a violation; non-trivial = at least one resume from a rung "
                 "holding >= 3 entries and at least one start while paused trials existed; distinct by content hash")
     rng = ctx.rng
     if replay is not None:
@@ -1001,6 +1052,11 @@ def run(ctx, replay=None):
         n = ctx.n(180, 5000)
         specs = corpus + [gen_spec(rng, force_type=TYPES[i % 4] if i < n // 2 else None) for i in range(n)]
         ctx.h("stream", "corpus", len(corpus))
+        # interleaved twin experiments: two independent promotion-type schedulers alive in one process, overlapping
+        # trial ids, protocol-following op lists interleaved; each is checked against its own model / reference
+        for _ in range(ctx.n(24, 400)):
+            specs.append(dict(twin=[gen_spec(rng, wellformed=True), gen_spec(rng, wellformed=True)],
+                              schedule_seed=rng.randrange(10 ** 6)))
         if ctx.tier == "thorough":
             exh = exhaustive_specs(ctx, depth=int(os.environ.get("VERIF_C04_EXH_DEPTH", "12")), cap=30000)
             ctx.notes.append("bounded-exhaustive stream (plain promotion, <=3 trials, 3 workers, rung levels [1,2,3], "
@@ -1010,17 +1066,23 @@ def run(ctx, replay=None):
     hyp_terms, hyp_meta = [], []
     boundary_total = 0
     sink = io.StringIO()
-    for spec in specs:
+    jobs = []
+    for case_spec in specs:
         with contextlib.redirect_stdout(sink), contextlib.redirect_stderr(sink):
-            res = run_spec(spec)
+            if "twin" in case_spec:
+                for sub, r in zip(case_spec["twin"], run_twin(case_spec)):
+                    jobs.append((case_spec, sub, r))
+            else:
+                jobs.append((case_spec, case_spec, run_spec(case_spec)))
+    for case_spec, spec, res in jobs:
         if res is None:
             ctx.h("construct", "rejected")
             continue
         st, chk = res["stats"], res["checker"]
         nontriv = st["resumes"] >= 1 and st["max_rung_at_resume"] >= 3 and st["starts_with_paused"] >= 1
-        ctx.count(("c04", spec), nontrivial=nontriv)
+        ctx.count(("c04", spec, "twin" in case_spec), nontrivial=nontriv)
         ctx.h("type", spec["type"])
-        ctx.h("stream", "exhaustive" if spec.get("exhaustive") else "random")
+        ctx.h("stream", "twin" if "twin" in case_spec else "exhaustive" if spec.get("exhaustive") else "random")
         ctx.h("searcher_data", spec.get("searcher_data", "rungs"))
         ctx.h("brackets", "%d%s" % (spec["brackets"], "/per_bracket" if spec["per_bracket"] else ""))
         ctx.h("mra/checkpointing", "%s/%s" % (spec["mra"], spec["checkpointing"]))
@@ -1033,14 +1095,14 @@ def run(ctx, replay=None):
         for v in chk.violations[:3]:
             ctx.violation("property", "%s %s (mode=%s, brackets=%d): %s" % (
                 "HyperbandScheduler", spec["type"], spec["mode"], spec["brackets"], v["what"]),
-                case=dict(spec=spec, first_bad=v, events=res["events"][-12:]),
+                case=dict(spec=case_spec, first_bad=v, events=res["events"][-12:]),
                 signature=v.get("signature") or dict(scheduler="HyperbandScheduler", type=spec["type"], check=v["check"]))
         for what in chk.oracle_mismatch[:2]:
-            ctx.violation("correspondence", "PASHA oracle tie broken: " + what, case=dict(spec=spec), failing_input=False,
+            ctx.violation("correspondence", "PASHA oracle tie broken: " + what, case=dict(spec=case_spec), failing_input=False,
                           broken="oracle tie: self.epsilon == np.percentile(noisy_cfg_distances, 90) with the distances the "
                                  "model computes")
         terms.append(res["term"])
-        meta.append(dict(spec=spec, impl_events=res["events"]))
+        meta.append(dict(spec=case_spec, sub=spec, impl_events=res["events"]))
         if st["malformed"] == 0 and st["oracle_errors"] == 0:
             hyp_terms.append("(%s, %s)" % (blit(spec["checkpointing"]), res["term"]))
             hyp_meta.append(len(meta) - 1)
@@ -1059,7 +1121,7 @@ def run(ctx, replay=None):
             at = int(k.group(1)) if k else None
             ctx.violation("correspondence", "model/Promotion.v and HyperbandScheduler(type=%s) differ on an event sequence; "
                           "first differing event #%s: implementation %s; model: %s"
-                          % (m["spec"]["type"], at, m["impl_events"][at] if at is not None and at < len(m["impl_events"]) else "?",
+                          % (m["sub"]["type"], at, m["impl_events"][at] if at is not None and at < len(m["impl_events"]) else "?",
                              diag[:700]),
                           case=dict(spec=m["spec"], impl_events=m["impl_events"][-30:]),
                           failing_input=False, broken="correspondence chk_seq (model/Promotion.v step)")
@@ -1069,6 +1131,6 @@ def run(ctx, replay=None):
             m = meta[hyp_meta[k]]
             ctx.violation("correspondence", "a protocol-following harness sequence (type=%s, checkpointing=%s) does not "
                           "satisfy the hypotheses `consecutive` / `proto_from` of the trace theorems"
-                          % (m["spec"]["type"], m["spec"]["checkpointing"]),
+                          % (m["sub"]["type"], m["sub"]["checkpointing"]),
                           case=dict(spec=m["spec"], impl_events=m["impl_events"][-30:]),
                           failing_input=False, broken="hypothesis coverage chk_hyp (consecutive_b / proto_b)")
